@@ -72,6 +72,27 @@ func c10Specs() []gram.Named {
 	emptyEpi.Epilogue = ""
 	out = append(out, gram.Named{Name: "empty-epilogue", Spec: emptyEpi})
 
+	sameLine := gram.Parse("S", []string{"TA", "TB"}, "S: TA S TB | TB")
+	sameLine.HasEpilogue = true
+	sameLine.Epilogue = " /* program text on the line of the section mark */ var tail = 1\n// more\n"
+	out = append(out, gram.Named{Name: "epilogue-on-section-line", Spec: sameLine})
+
+	// braces inside the strings, runes and comments of an action or of the %union body are text, not structure
+	quoted := gram.Parse("S", []string{"TA", "TB"}, "S: A TB | S TB A | TB TB ; A: TA | TA TA | ")
+	quoted.Union = " n int // a brace } in a comment\n s string /* and { another */ "
+	quoted.HasUnion = true
+	quoted.Types = []gram.TypeDecl{{Tag: "n", Names: []string{"S", "A"}}}
+	quoted.Tokens = []gram.TokDecl{{Name: "TA", Tag: "n"}, {Name: "TB"}}
+	quoted.Rules[0].Action = " s := \"}\"; _ = s; $$ = $1 "
+	quoted.Rules[1].Action = " if '{' == 123 { $$ = $1 } "
+	quoted.Rules[2].Action = " $$ = 0 /* } */ "
+	quoted.Rules[3].Action = "\n\t$$ = $1 // }\n"
+	quoted.Rules[4].Action = " s := \"\\\"}{\"; _ = s; $$ = $1 "
+	quoted.Rules[5].Action = " s := `}`; _ = s; r := '\\''; _ = r; $$ = 0 "
+	quoted.Epilogue = "\n// tail\n"
+	quoted.HasEpilogue = true
+	out = append(out, gram.Named{Name: "braces-in-quoted-text", Spec: quoted})
+
 	acts := gram.Parse("S", []string{"TA", "TB"}, "S: A TB | S TB A ; A: TA | ")
 	acts.Union = " n int "
 	acts.HasUnion = true
@@ -94,6 +115,21 @@ func c10Specs() []gram.Named {
 	nums.Union = "t string"
 	nums.HasUnion = true
 	out = append(out, gram.Named{Name: "numbers-tags", Spec: nums})
+
+	// value tags given on precedence lines: to a token declared before (untagged), to a new name, to a literal
+	ptag := gram.Parse("E", nil, "E: E TP E | E TQ E | E '-' E | TN")
+	ptag.Union = " v int \n w string "
+	ptag.HasUnion = true
+	ptag.Tokens = []gram.TokDecl{{Name: "TN", Tag: "v"}, {Name: "TP"}, {Name: "TQ", NoTokenLine: true}, {Name: "'-'", NoTokenLine: true}}
+	ptag.Prec = []gram.PrecLevel{{Assoc: "left", Toks: []string{"TP"}, Tag: "w"}, {Assoc: "right", Toks: []string{"TQ", "'-'"}, Tag: "v"}}
+	out = append(out, gram.Named{Name: "tags-on-precedence-lines", Spec: ptag})
+
+	// several tokens per %token line, numbered ones before unnumbered ones
+	lines := gram.Parse("P", nil, "P: NUM HEX LET PRINT END '+' ID '*' | P ID")
+	lines.Tokens = []gram.TokDecl{{Name: "NUM", Num: 300}, {Name: "HEX"}, {Name: "LET", Num: 310, Alias: "let"}, {Name: "PRINT", Alias: "print"}, {Name: "END"}, {Name: "'+'"}, {Name: "ID", Tag: "s"}, {Name: "'*'", Tag: "s"}, {Name: "ID", Num: 400}}
+	lines.Union = " s string "
+	lines.HasUnion = true
+	out = append(out, gram.Named{Name: "token-lines", Spec: lines})
 
 	// identifiers that happen to spell directive keywords (without the %) are ordinary names
 	kw := gram.Parse("start", nil, "start: left token right | type ; type: prec union | ")
@@ -126,13 +162,20 @@ func c10Work(w *Worker) {
 		w.Count("specifications", int64(len(specs)))
 	}
 	for si, n := range specs {
-		small := si >= 7 // class grammars and families: fewer option combinations
-		for oi := 0; oi < 4; oi++ {
-			o := gram.LayoutOpts{NoSemicolon: oi&1 != 0, RepeatLHS: oi&2 != 0}
+		small := si >= 11 // class grammars and families: fewer option combinations
+		for oi := 0; oi < 8; oi++ {
+			o := gram.LayoutOpts{NoSemicolon: oi&1 != 0, RepeatLHS: oi&2 != 0, GroupDecls: oi&4 != 0}
 			if small && strings.Contains(n.Name, "#") && oi != 0 && oi != 3 {
 				continue
 			}
 			atoms := n.Spec.Atoms(o)
+			if o.GroupDecls {
+				o2 := o
+				o2.GroupDecls = false
+				if len(n.Spec.Atoms(o2)) == len(atoms) {
+					continue // no two declarations can share a line
+				}
+			}
 			emit := func(c *c10Case) {
 				if w.Mine(idx) {
 					if idx%32 == 0 {
@@ -166,7 +209,7 @@ func c10Work(w *Worker) {
 					emit(&c10Case{Origin: n.Name, Spec: n.Spec, Opts: o, Seps: map[int]string{gi: sp}})
 				}
 			}
-			if w.Thorough() && si < 7 {
+			if w.Thorough() && si < 11 {
 				for gi, a1 := range atoms {
 					for gj := gi + 1; gj < len(atoms); gj++ {
 						a2 := atoms[gj]
@@ -208,7 +251,7 @@ func c10Eval(w *Worker, c *c10Case) {
 	w.Count("evaluations", 1)
 	text := c.text()
 	spec := c.Spec
-	if len(c.Seps) > 0 || c.HasUni || c.Opts.NoSemicolon || c.Opts.RepeatLHS {
+	if len(c.Seps) > 0 || c.HasUni || c.Opts.NoSemicolon || c.Opts.RepeatLHS || c.Opts.GroupDecls {
 		w.Distinct(text)
 	}
 	key := fmt.Sprintf("%s|%v|%v|%q|%v", c.Origin, c.Opts, c.Seps, c.Uniform, c.HasUni)
@@ -279,6 +322,13 @@ func c10Eval(w *Worker, c *c10Case) {
 			wantTag[t.Name] = t.Tag
 		}
 	}
+	for _, pl := range spec.Prec {
+		if pl.Tag != "" {
+			for _, t := range pl.Toks {
+				wantTag[t] = pl.Tag
+			}
+		}
+	}
 	for _, t := range spec.Types {
 		for _, n := range t.Names {
 			wantTag[n] = t.Tag
@@ -299,11 +349,23 @@ func c10Eval(w *Worker, c *c10Case) {
 			}
 		}
 	}
+	declared := map[int]int{}
+	for _, n := range wantNum {
+		declared[n]++
+	}
+	byCode := map[int]string{}
 	for id, sy := range v.G.Symbols {
 		if id < 2 {
 			continue
 		}
 		name := vw.SpecName(id)
+		if !sy.IsNonTerminator {
+			if other, dup := byCode[sy.Value]; dup && declared[sy.Value] < 2 {
+				bad("token-number", fmt.Sprintf("tokens %s and %s both have code %d", other, name, sy.Value))
+				return
+			}
+			byCode[sy.Value] = name
+		}
 		if gram.IsLit(name) && sy.Value != int(gram.LitChar(name)) {
 			bad("token-number", fmt.Sprintf("literal %s has code %d", name, sy.Value))
 			return
